@@ -14,4 +14,5 @@ INVARIANT Inv_Svcs
 INVARIANT Inv_Deps
 INVARIANT Inv_Unrelated
 INVARIANT Inv_Internal
+INVARIANT Inv_Files
 INVARIANT Inv_Off
